@@ -812,6 +812,21 @@ func planFor(prop, tier string) (*plan, error) {
 				ps = append(ps, flowProg(f, "S:rep:"+pat+":"+sp))
 			}
 		}
+		// several cff.Results / cff.Params options in one directive
+		for _, n := range []string{"fork", "indep3", "pthru", "midres", "dupres", "pjoin"} {
+			for _, sp := range []string{"results", "results-spread", "params", "both"} {
+				f := exprConc(pg.Shape(n))
+				if (sp == "params" || sp == "both") && len(f.Params) < 2 && sp != "both" {
+					continue
+				}
+				if (sp == "results" || sp == "results-spread") && len(f.Results) < 2 {
+					continue
+				}
+				p := flowProg(f, "S:split="+sp+":"+n)
+				p.F.SplitOpts = sp
+				ps = append(ps, p)
+			}
+		}
 		for _, enc := range []string{"closure", "generic", "method", "nested2"} {
 			f := exprConc(pg.Shape("chain2"))
 			p := flowProg(f, "S:enclose="+enc)
